@@ -7,5 +7,7 @@ func init() {
 		func(r *Report) {
 			ruleLocks(r)
 			ruleHandoff(r)
+			ruleRWMemstore(r)
+			ruleReaderRebuilt(r)
 		})
 }
